@@ -119,13 +119,16 @@ theorem deFieldsMap_serNamed_aux (dflt : FieldInfo → Val) : ∀ (fs : List Fie
         simp [lookupKey, hb]
       have ih := deFieldsMap_serNamed_aux dflt fs vs (pre ++ [(strVal f.name, v)]) hl hn2 hp'
       have hcat : pre ++ (strVal f.name, v) :: serNamed fs vs = (pre ++ [(strVal f.name, v)]) ++ serNamed fs vs := by simp
+      have hff : fieldFromMap dflt (pre ++ (strVal f.name, v) :: serNamed fs vs) f = some v := by
+        simp [fieldFromMap, hs, hhead]
       simp only [serNamed, hs, deFieldsMap, restore, Bool.false_eq_true, if_false]
-      rw [hhead, hcat, ih]
+      rw [hff, hcat, ih]
     · have hlive : liveFields (f :: fs) = liveFields fs := by simp [liveFields, List.filter, hs]
       have ih := deFieldsMap_serNamed_aux dflt fs vs pre hl (by simpa [liveKeys, hlive] using hn)
         (by intro g hg; exact hp g (by rw [hlive]; exact hg))
+      have hff : fieldFromMap dflt (pre ++ serNamed fs vs) f = some (dflt f) := by simp [fieldFromMap, hs]
       simp only [serNamed, hs, deFieldsMap, restore, if_true]
-      rw [ih]
+      rw [hff, ih]
 
 theorem deFieldsMap_serNamed (dflt : FieldInfo → Val) (fs : List FieldInfo) (vs : List Val)
     (h : fs.length = vs.length) (hn : nodupStrings (liveKeys fs) = true) :
@@ -133,7 +136,208 @@ theorem deFieldsMap_serNamed (dflt : FieldInfo → Val) (fs : List FieldInfo) (v
   have := deFieldsMap_serNamed_aux dflt fs vs [] h hn (by intro g _; rfl)
   simpa using this
 
+
+/-! ### named layout: duplicate / unknown / absent keys, entry order -/
+
+/-- keys of a message as canonical text -/
+def keysOf (kvs : List (Val × Val)) : List String := kvs.map fun kv => render kv.1
+
+theorem knownKeys_serNamed (fs : List FieldInfo) (vs : List Val) (h : fs.length = vs.length) :
+    knownKeys fs (serNamed fs vs) = liveKeys fs := by
+  simp only [knownKeys, serNamed_keys fs vs h]
+  rw [List.filter_eq_self]
+  intro a ha
+  simpa [List.contains_iff_mem] using ha
+
+theorem deStruct_serNamed (dflt : FieldInfo → Val) (fs : List FieldInfo) (vs : List Val)
+    (h : fs.length = vs.length) (hn : nodupStrings (liveKeys fs) = true) :
+    deStruct dflt fs (.map (serNamed fs vs)) = some (restore dflt fs vs) := by
+  simp [deStruct, knownKeys_serNamed fs vs h, hn, deFieldsMap_serNamed dflt fs vs h hn]
+
+theorem lookupKey_none_iff (k : String) : ∀ (kvs : List (Val × Val)),
+    lookupKey k kvs = none ↔ ∀ p ∈ kvs, (render p.1 == k) = false
+  | [] => by simp [lookupKey]
+  | (k', v) :: r => by
+    by_cases hk : (render k' == k) = true
+    · simp only [lookupKey, hk, if_true]
+      constructor
+      · intro h; cases h
+      · intro h
+        have := h (k', v) List.mem_cons_self
+        rw [hk] at this; cases this
+    · have hk' : (render k' == k) = false := by simpa using hk
+      simp only [lookupKey, hk', Bool.false_eq_true, if_false, List.mem_cons, forall_eq_or_imp, true_and]
+      exact lookupKey_none_iff k r
+
+theorem lookupKey_some_mem (k : String) : ∀ (kvs : List (Val × Val)) (v : Val),
+    lookupKey k kvs = some v → ∃ k', (k', v) ∈ kvs ∧ (render k' == k) = true
+  | [], _, h => by simp [lookupKey] at h
+  | (k', w) :: r, v, h => by
+    by_cases hk : (render k' == k) = true
+    · simp only [lookupKey, hk, if_true] at h
+      have : w = v := Option.some.inj h
+      exact ⟨k', by simp [this], hk⟩
+    · simp only [lookupKey, hk] at h
+      obtain ⟨k'', hm, hk''⟩ := lookupKey_some_mem k r v h
+      exact ⟨k'', List.mem_cons_of_mem _ hm, hk''⟩
+
+theorem lookupKey_of_mem_nodup : ∀ (kvs : List (Val × Val)) (k' : Val) (v : Val),
+    nodupStrings (keysOf kvs) = true → (k', v) ∈ kvs → lookupKey (render k') kvs = some v
+  | [], _, _, _, h => by cases h
+  | (k0, v0) :: r, k', v, hn, hm => by
+    have hn' : nodupStrings (render k0 :: keysOf r) = true := by simpa [keysOf] using hn
+    have hn2 : nodupStrings (keysOf r) = true := by
+      simp only [nodupStrings, Bool.and_eq_true] at hn'; exact hn'.2
+    rcases List.mem_cons.mp hm with e | hr
+    · have e1 : k' = k0 := congrArg Prod.fst e
+      have e2 : v = v0 := congrArg Prod.snd e
+      subst e1; subst e2
+      simp [lookupKey]
+    · have hne : render k' ≠ render k0 :=
+        not_contains_of_nodup hn' (render k') (by simp only [keysOf]; exact List.mem_map_of_mem (f := fun kv => render kv.1) hr)
+      have hb : (render k0 == render k') = false := by
+        simp only [beq_eq_false_iff_ne]; exact fun e => hne e.symm
+      simp only [lookupKey, hb, Bool.false_eq_true, if_false]
+      exact lookupKey_of_mem_nodup r k' v hn2 hr
+
+/-- with distinct keys a lookup depends only on the set of entries -/
+theorem lookupKey_congr (k : String) (kvs kvs' : List (Val × Val))
+    (h' : nodupStrings (keysOf kvs') = true) (hm : ∀ p, p ∈ kvs' ↔ p ∈ kvs) :
+    lookupKey k kvs' = lookupKey k kvs := by
+  cases hl : lookupKey k kvs with
+  | none =>
+    rw [lookupKey_none_iff] at hl ⊢
+    intro p hp; exact hl p ((hm p).mp hp)
+  | some v =>
+    obtain ⟨k', hmem, hk⟩ := lookupKey_some_mem k kvs v hl
+    have := lookupKey_of_mem_nodup kvs' k' v h' ((hm _).mpr hmem)
+    rw [eq_of_beq hk] at this; exact this
+
+theorem nodupStrings_filter (p : String → Bool) : ∀ (l : List String), nodupStrings l = true →
+    nodupStrings (l.filter p) = true
+  | [], _ => rfl
+  | a :: r, h => by
+    simp only [nodupStrings, Bool.and_eq_true, Bool.not_eq_true'] at h
+    have ih := nodupStrings_filter p r h.2
+    by_cases hp : p a = true
+    · simp only [List.filter, hp, nodupStrings, Bool.and_eq_true, Bool.not_eq_true', ih, and_true]
+      cases hc : (r.filter p).contains a with
+      | false => rfl
+      | true =>
+        have : a ∈ r := (List.mem_filter.mp (List.contains_iff_mem.mp hc)).1
+        have : r.contains a = true := List.contains_iff_mem.mpr this
+        rw [this] at h; exact absurd h.1 (by simp)
+    · have hp' : p a = false := by simpa using hp
+      simpa [List.filter, hp'] using ih
+
+theorem deFieldsMap_congr (dflt : FieldInfo → Val) (kvs kvs' : List (Val × Val))
+    (h : ∀ k, lookupKey k kvs' = lookupKey k kvs) : ∀ (fs : List FieldInfo),
+    deFieldsMap dflt kvs' fs = deFieldsMap dflt kvs fs
+  | [] => rfl
+  | f :: fs => by
+    simp only [deFieldsMap, fieldFromMap, h, deFieldsMap_congr dflt kvs kvs' h fs]
+
+/-- **entry order is irrelevant in the named layout**: two messages with distinct keys and the same set of
+entries deserialise alike -/
+theorem deStruct_map_order_irrelevant (dflt : FieldInfo → Val) (fs : List FieldInfo) (kvs kvs' : List (Val × Val))
+    (h : nodupStrings (keysOf kvs) = true) (h' : nodupStrings (keysOf kvs') = true)
+    (hm : ∀ p, p ∈ kvs' ↔ p ∈ kvs) :
+    deStruct dflt fs (.map kvs') = deStruct dflt fs (.map kvs) := by
+  have e1 : nodupStrings (knownKeys fs kvs) = true := nodupStrings_filter _ _ h
+  have e2 : nodupStrings (knownKeys fs kvs') = true := nodupStrings_filter _ _ h'
+  simp only [deStruct, e1, e2, if_true]
+  exact deFieldsMap_congr dflt kvs kvs' (fun k => lookupKey_congr k kvs kvs' h' hm) fs
+
+theorem lookupKey_append_ne (key : String) (k x : Val) (hk : (render k == key) = false) :
+    ∀ (kvs : List (Val × Val)), lookupKey key (kvs ++ [(k, x)]) = lookupKey key kvs
+  | [] => by simp [lookupKey, hk]
+  | (k', v) :: r => by
+    by_cases hb : (render k' == key) = true
+    · simp [lookupKey, hb]
+    · simp only [List.cons_append, lookupKey, hb]
+      exact lookupKey_append_ne key k x hk r
+
+theorem deFieldsMap_append_unknown (dflt : FieldInfo → Val) (kvs : List (Val × Val)) (k x : Val) :
+    ∀ (fs : List FieldInfo), (∀ f ∈ liveFields fs, (render k == keyOf f) = false) →
+    deFieldsMap dflt (kvs ++ [(k, x)]) fs = deFieldsMap dflt kvs fs
+  | [], _ => rfl
+  | f :: fs, h => by
+    cases hs : f.skip
+    · have hlive : liveFields (f :: fs) = f :: liveFields fs := by simp [liveFields, List.filter, hs]
+      have hf := h f (by rw [hlive]; exact List.mem_cons_self)
+      have ih := deFieldsMap_append_unknown dflt kvs k x fs
+        (fun g hg => h g (by rw [hlive]; exact List.mem_cons_of_mem _ hg))
+      simp only [deFieldsMap, fieldFromMap, hs, lookupKey_append_ne _ k x hf kvs, ih]
+    · have hlive : liveFields (f :: fs) = liveFields fs := by simp [liveFields, List.filter, hs]
+      have ih := deFieldsMap_append_unknown dflt kvs k x fs (fun g hg => h g (by rw [hlive]; exact hg))
+      simp [deFieldsMap, fieldFromMap, hs, ih]
+
+/-- **an entry under a key that names no live field is ignored** (unknown fields, names of skipped fields) -/
+theorem deStruct_unknown_key_ignored (dflt : FieldInfo → Val) (fs : List FieldInfo) (kvs : List (Val × Val))
+    (k x : Val) (hk : (liveKeys fs).contains (render k) = false) :
+    deStruct dflt fs (.map (kvs ++ [(k, x)])) = deStruct dflt fs (.map kvs) := by
+  have hk' : render k ∉ liveKeys fs := by simpa using hk
+  have hkk : knownKeys fs (kvs ++ [(k, x)]) = knownKeys fs kvs := by
+    simp [knownKeys, List.filter_append, List.filter, hk']
+  have hne : ∀ f ∈ liveFields fs, (render k == keyOf f) = false := by
+    intro f hf
+    simp only [beq_eq_false_iff_ne]
+    intro e
+    have : (liveKeys fs).contains (render k) = true := by
+      rw [List.contains_iff_mem, e]; exact List.mem_map_of_mem hf
+    rw [this] at hk; exact Bool.noConfusion hk
+  simp only [deStruct, hkk, deFieldsMap_append_unknown dflt kvs k x fs hne]
+
+theorem nodupStrings_append_mem (a : String) : ∀ (l : List String), a ∈ l → nodupStrings (l ++ [a]) = false
+  | [], h => by cases h
+  | b :: r, h => by
+    rcases List.mem_cons.mp h with e | hr
+    · subst e
+      have : (r ++ [a]).contains a = true := by simp [List.contains_iff_mem]
+      simp [nodupStrings, this]
+    · simp [nodupStrings, nodupStrings_append_mem a r hr]
+
+/-- **a live field's key occurring twice is rejected** ("duplicate field") -/
+theorem deStruct_duplicate_key_rejected (dflt : FieldInfo → Val) (fs : List FieldInfo) (kvs : List (Val × Val))
+    (k x : Val) (hk : (liveKeys fs).contains (render k) = true) (hd : render k ∈ keysOf kvs) :
+    deStruct dflt fs (.map (kvs ++ [(k, x)])) = none := by
+  have hk' : render k ∈ liveKeys fs := by simpa using hk
+  have hkk : knownKeys fs (kvs ++ [(k, x)]) = knownKeys fs kvs ++ [render k] := by
+    simp [knownKeys, List.filter_append, List.filter, hk']
+  have hmem : render k ∈ knownKeys fs kvs := by
+    simp only [knownKeys, List.mem_filter]; exact ⟨hd, hk⟩
+  simp [deStruct, hkk, nodupStrings_append_mem _ _ hmem]
+
+/-- **an absent key**: a required live field makes the whole struct fail ("missing field") … -/
+theorem deFieldsMap_missing_required (dflt : FieldInfo → Val) (kvs : List (Val × Val)) (f : FieldInfo)
+    (hs : f.skip = false) (ho : isOptional f = false) (hl : lookupKey (keyOf f) kvs = none) :
+    ∀ (fs : List FieldInfo), f ∈ fs → deFieldsMap dflt kvs fs = none
+  | [], h => by cases h
+  | g :: fs, h => by
+    rcases List.mem_cons.mp h with e | hr
+    · subst e
+      simp [deFieldsMap, fieldFromMap, hs, ho, hl]
+    · have ih := deFieldsMap_missing_required dflt kvs f hs ho hl fs hr
+      simp only [deFieldsMap, ih]
+      cases fieldFromMap dflt kvs g <;> rfl
+
+/-- … an `Option` field reads as `None` -/
+theorem fieldFromMap_missing_optional (dflt : FieldInfo → Val) (kvs : List (Val × Val)) (f : FieldInfo)
+    (hs : f.skip = false) (ho : isOptional f = true) (hl : lookupKey (keyOf f) kvs = none) :
+    fieldFromMap dflt kvs f = some .nil := by
+  simp [fieldFromMap, hs, ho, hl]
+
 /-! ### variant indices -/
+
+/-- a skipped variant cannot be written at all (derive(Serialize) returns "the enum variant … cannot be
+serialized"), whatever stands before or after it -/
+theorem serIndex_skipped (w : VariantInfo) (post : List VariantInfo) (hs : w.skip = true) :
+    ∀ (pre : List VariantInfo), (∀ u ∈ pre, (u.name == w.name) = false) → serIndex w.name (pre ++ w :: post) = none
+  | [], _ => by simp [serIndex, hs]
+  | u :: pre, h => by
+    have hu := h u List.mem_cons_self
+    have ih := serIndex_skipped w post hs pre (fun x hx => h x (List.mem_cons_of_mem _ hx))
+    simp [serIndex, hu, ih]
 
 theorem serIndex_none_of_all_skip (name : String) : ∀ (ws : List VariantInfo),
     ws.all (fun v => v.skip) = true → serIndex name ws = none
